@@ -166,6 +166,9 @@ impl<T: FileReader> RVParser<T> {
                     LexError::UnexpectedEOF => {
                         self.lexer_stack.pop();
                     }
+                    LexError::IncompleteStatement(x) => {
+                        parse_errors.push(ParseError::IncompleteStatement(x));
+                    }
                     LexError::NeedTwoNodes(n1, n2) => {
                         nodes.push(*n1);
                         nodes.push(*n2);
@@ -285,7 +288,9 @@ impl AnnotatedLexer<'_> {
     }
 
     fn get_any(&mut self) -> Result<Token, LexError> {
-        let item = self.lexer.next().ok_or(LexError::UnexpectedEOF)?;
+        let Some(item) = self.lexer.next() else {
+            return self.end_of_file();
+        };
         if let Ok(ref item) = item {
             if self.raw_token == RawToken::default() {
                 self.raw_token = item.clone().into();
@@ -300,10 +305,25 @@ impl AnnotatedLexer<'_> {
         item
     }
 
+    /// The error for running out of tokens: at the start of a statement this
+    /// is the regular end of the file; in the middle of one, the statement is
+    /// incomplete.
+    fn end_of_file(&self) -> Result<Token, LexError> {
+        if self.raw_token == RawToken::default() {
+            return Err(LexError::UnexpectedEOF);
+        }
+        Err(LexError::IncompleteStatement(Box::new(Token::new(
+            TokenType::Symbol(self.raw_token.raw_text()),
+            self.raw_token.raw_text(),
+            self.raw_token.range(),
+            self.raw_token.file(),
+        ))))
+    }
+
     fn peek_any(&mut self) -> Result<Token, LexError> {
         match self.lexer.peek() {
             Some(item) => item.clone(),
-            None => Err(LexError::UnexpectedEOF),
+            None => self.end_of_file(),
         }
     }
 }
@@ -440,7 +460,7 @@ impl TryFrom<&mut Peekable<Lexer>> for ParserNode {
                                     lex.raw_token,
                                 ))
                             } else if let Ok(imm) = next.as_imm() {
-                                if let Ok(()) = lex.peek_any()?.as_lparen() {
+                                if let Ok(()) = lex.peek_any().and_then(|next| next.as_lparen()) {
                                     lex.get_any()?;
                                     let rs1 = lex.get_reg()?;
                                     lex.expect_rparen()?;
@@ -484,7 +504,7 @@ impl TryFrom<&mut Peekable<Lexer>> for ParserNode {
                             let rd = lex.get_reg()?;
                             let next = lex.get_any()?;
                             return if let Ok(imm) = next.as_imm() {
-                                if let Ok(()) = lex.peek_any()?.as_lparen() {
+                                if let Ok(()) = lex.peek_any().and_then(|next| next.as_lparen()) {
                                     lex.get_any()?;
                                     let rs1 = lex.get_reg()?;
                                     lex.expect_rparen()?;
@@ -546,7 +566,7 @@ impl TryFrom<&mut Peekable<Lexer>> for ParserNode {
                             let next = lex.get_any()?;
 
                             return if let Ok(imm) = next.as_imm() {
-                                if let Ok(()) = lex.peek_any()?.as_lparen() {
+                                if let Ok(()) = lex.peek_any().and_then(|next| next.as_lparen()) {
                                     lex.get_any()?;
                                     let rs1 = lex.get_reg()?;
                                     lex.expect_rparen()?;
@@ -557,7 +577,7 @@ impl TryFrom<&mut Peekable<Lexer>> for ParserNode {
                                         imm,
                                         lex.raw_token,
                                     ))
-                                } else if let Ok(tmp) = lex.peek_any()?.as_reg() {
+                                } else if let Ok(tmp) = lex.peek_any().and_then(|next| next.as_reg()) {
                                     lex.get_any()?;
                                     Err(LexError::NeedTwoNodes(
                                         Box::new(ParserNode::new_iarith(
